@@ -289,10 +289,10 @@ def build_dist_harness(name, extra_flags=(), verbose=True):
         return out, res
     os.makedirs(build.BIN, exist_ok=True)
     os.makedirs(TMP, exist_ok=True)
-    tmpd = os.path.join(TMP, "distbuild-cc-%d" % os.getpid())
-    os.makedirs(tmpd, exist_ok=True)
+    import tempfile
+    tmpd = tempfile.mkdtemp(prefix="distbuild-cc-", dir=TMP)
     env = dict(os.environ, TMPDIR=tmpd)
-    tmp = out + ".tmp%d" % os.getpid()
+    tmp = out + ".tmp%d.%s" % (os.getpid(), os.path.basename(tmpd)[-6:])
     t0 = time.time()
     try:
         r = subprocess.run(harness_compile_cmd(res, src, tmp, extra_flags),
